@@ -199,6 +199,18 @@ def pw_def(x, n):
 MUL = z3.Function('MUL', R, R, R)
 
 
+DIVR = z3.Function('DIVR', R, R, R)
+
+
+def div_facts(x, y, t):
+    """facts about t = x / y for y > 0 (theorems of real arithmetic, re-proved each run)"""
+    pos = y > 0
+    return [z3.Implies(pos, (t >= 0) == (x >= 0)), z3.Implies(pos, (t > 0) == (x > 0)),
+            z3.Implies(pos, (t >= 1) == (x >= y)), z3.Implies(pos, (t <= 1) == (x <= y)),
+            z3.Implies(pos, (t == 0) == (x == 0)), z3.Implies(pos, (t == 1) == (x == y)),
+            z3.Implies(y == 1, t == x)]
+
+
 def mul_facts(x, y, t):
     return [z3.Implies(z3.Or(x == 0, y == 0), t == 0),
             z3.Implies(x == 1, t == y), z3.Implies(y == 1, t == x),
